@@ -18,6 +18,9 @@ ASSUMPTIONS = ["ref/xml_tokenizer.json reviewed (snapshot of the code after the 
 
 
 def run(ctx):
+    ctx.rule("R15.12", "= R03.17 / R08.7 for xml5ever's feed()")
+    from . import tokrules as _tr12
+    ctx.guard("R15.12", "feed/xml", lambda: _tr12.feed_facts(ctx, "R15.12", "xml"))
     ctx.rule("R15.11", "= R03.16 for xml5ever, with U+0000 -> U+FFFD also for the character read in place of a skipped LF")
     from . import tokrules as _tr11
     ctx.guard("R15.11", "preprocessing/xml", lambda: _tr11.preprocess_transcription(ctx, "R15.11", "xml"))
